@@ -1,8 +1,230 @@
 import Xp.Model.C14
+import Xp.Proofs.C14
+import Xp.Gen.PkgNames
+/-
+C14 — a package has at most one active revision, numbered last; history GC
+spares it.  Theorems about the model `Xp.C14.pkgReconcile` (Model/C14.lean, the
+reconciler with fixes/D5.diff applied), for ALL fault plans / histories.
+Helper lemmas are in Proofs/C14.lean.
+-/
 namespace Xp.C14
 
-/-- History garbage collection never deletes anything when the limit is 0. -/
-theorem gc_never_at_zero (cur : String) (l : List Rev) : gcVictim (some 0) cur l = none := by
-  simp [gcVictim, gcVictimWith]
+/-! ### at most one Active revision, at every instant -/
+
+/-- At every instant of a reconcile — before/after any API call, whatever fails, and
+right after a crash at any call — at most one revision of the package is Active
+(and names stay unique), provided this held when the reconcile started. -/
+theorem le_one_active_every_prefix (env : Env) (pname : String) (plan : Plan) (k : Nat) (s : Store)
+    (hwf : WF s) (h1 : (activeRevs pname s).length ≤ 1) :
+    ∀ s' ∈ reach sem plan k (pkgReconcile env pname) s, WF s' ∧ (activeRevs pname s').length ≤ 1 :=
+  reconcile_reach_Inv env pname plan k s ⟨hwf, h1⟩
+
+/-- The same over every history: any sequence of reconciles (each under its own fault plan,
+including crashes, and its own registry answers) interleaved with package edits (source/tag,
+history limit, activation and pull policy, pause, labels) and revision-controller steps. -/
+theorem le_one_active_every_history (pname : String) (h : List (Plan × Step)) (s : Store)
+    (hwf : WF s) (h1 : (activeRevs pname s).length ≤ 1) :
+    ∀ s' ∈ reachHistory sem (historyProgs pname h) s, WF s' ∧ (activeRevs pname s').length ≤ 1 := by
+  have hinv : Inv pname s := ⟨hwf, h1⟩
+  clear hwf h1
+  induction h generalizing s with
+  | nil => intro s' hm; simp [historyProgs, reachHistory] at hm; subst hm; exact hinv
+  | cons x rest ih =>
+    obtain ⟨pl, st⟩ := x
+    have hstep : ∀ s' ∈ reach sem pl 0 (stepProg pname st) s, Inv pname s' := by
+      cases st with
+      | reconcile env => exact reconcile_reach_Inv env pname pl 0 s hinv
+      | envAct a => exact envStep_reach_Inv a pname pl 0 s hinv
+    intro s' hm
+    simp only [historyProgs, List.map_cons, reachHistory, List.mem_append] at hm
+    rcases hm with hm | hm
+    · exact hstep s' hm
+    · exact ih _ (hstep _ (run_mem_reach sem pl 0 _ s)) s' hm
+
+/-! ### after a reconcile the current revision exists, is numbered last, is Active -/
+
+/-- If a reconcile runs to completion (under any fault plan), the revision named after the
+package's current source exists, belongs to the package, carries a revision number at least
+as high as every other revision of the package, has the package's source as image, and is
+Active unless the activation policy is Manual. -/
+theorem current_exists_highest_active (env : Env) (pname : String) (plan : Plan) (s s' : Store)
+    (cur : String) (after : Bool)
+    (hrun : run sem plan 0 (pkgReconcile env pname) s = (s', some (.done cur after))) :
+    ∃ p, s.pkg = some p ∧ p.name = pname ∧ revisionName env p = .ok cur ∧
+      ∃ rev ∈ s'.revs, rev.name = cur ∧ rev.parent = some pname ∧
+        (∀ x ∈ s'.revs, labelled pname x = true → x.number ≤ rev.number) ∧
+        (p.spec.policy ≠ .manual → rev.state = .active) ∧ rev.image = p.spec.source := by
+  have hB : NumLeO pname (curOf env s) (maxRevision (s.revs.filter (labelled pname))) s.revs :=
+    fun x hx lx _ => le_maxRevision (List.mem_filter.mpr ⟨hx, lx⟩)
+  obtain ⟨p, h1, h2, h3, rev, h4, h5, h6, h7, h8, h9, _⟩ :=
+    Tri.run plan 0 _ s (reconcile_tri env pname _ s hB) s' _ hrun cur after rfl
+  exact ⟨p, h1, h2, h3, rev, h4, h5, h6, h7, h8, h9⟩
+
+/-- "Numbered last" is strict when the package's revision numbers were distinct to start with:
+after a completed reconcile every other revision of the package has a strictly lower number
+than the current one. -/
+theorem current_strictly_highest (env : Env) (pname : String) (plan : Plan) (s s' : Store)
+    (cur : String) (after : Bool)
+    (hdist : ∀ x ∈ s.revs, ∀ y ∈ s.revs, labelled pname x = true → labelled pname y = true →
+      x.number = y.number → x.name = y.name)
+    (hrun : run sem plan 0 (pkgReconcile env pname) s = (s', some (.done cur after))) :
+    ∃ rev ∈ s'.revs, rev.name = cur ∧ rev.parent = some pname ∧
+      ∀ x ∈ s'.revs, labelled pname x = true → x.name ≠ cur → x.number < rev.number := by
+  obtain ⟨p, h1, h2, h3, rev, h4, h5, h6, _, _, _, h10, h11⟩ :=
+    Tri.run plan 0 _ s (reconcile_tri env pname _ s (strictB_ok env pname s hdist)) s' _ hrun cur after rfl
+  refine ⟨rev, h4, h5, h6, ?_⟩
+  intro x hx lx hne
+  have hb := h11 x hx lx hne
+  have hcur : curOf env s = cur := by simp [curOf, h1, h3]
+  simp only [strictB, h1, hcur] at hb
+  omega
+
+/-! ### revision names are a function of package name and digest -/
+
+/-- Whenever the registry is consulted, the revision name is `friendlyID name digest`:
+it depends on nothing but the package name and the image digest (not on the tag, the
+policies, the history, or the store). -/
+theorem revision_name_function (env env' : Env) (p p' : Pkg) (d : String)
+    (hname : p.name = p'.name)
+    (hd : env.head p.spec.source = .digest d) (hd' : env'.head p'.spec.source = .digest d)
+    (hp : env.parseOk p.spec.source = true) (hp' : env'.parseOk p'.spec.source = true)
+    (hpull : p.spec.pull = .always ∨ p.spec.pull = .unset) (hpull' : p'.spec.pull = .always ∨ p'.spec.pull = .unset) :
+    revisionName env p = .ok (friendlyID p.name d) ∧ revisionName env' p' = revisionName env p := by
+  have h1 : revisionName env p = .ok (friendlyID p.name d) := by
+    rcases hpull with h | h <;> simp [revisionName, h, hd, hp]
+  have h2 : revisionName env' p' = .ok (friendlyID p'.name d) := by
+    rcases hpull' with h | h <;> simp [revisionName, h, hd', hp']
+  exact ⟨h1, by rw [h1, h2, hname]⟩
+
+/-- The only revision a reconcile can ever add to the store is the one named after the
+current source: at every instant every revision either existed before or bears that name. -/
+theorem only_current_revision_is_ever_created (env : Env) (pname : String) (plan : Plan) (k : Nat) (s : Store)
+    (p : Pkg) (cur : String) (hp : s.pkg = some p) (hcur : revisionName env p = .ok cur) :
+    ∀ s' ∈ reach sem plan k (pkgReconcile env pname) s, ∀ r ∈ s'.revs,
+      r.name = cur ∨ ∃ r0 ∈ s.revs, r0.name = r.name := by
+  intro s' hs' r hr
+  have h := (reconcile_reach_I0 env pname plan k s s' hs').2.2 r hr
+  simpa [curOf, hp, hcur] using h
+
+/-- Same name and digest ⇒ same revision name ⇒ no second revision: if a revision named
+`friendlyID name digest` already exists, re-resolving that image (via whatever tag) never
+creates another revision — at no instant does a revision exist that did not exist before. -/
+theorem friendlyID_function (env : Env) (pname : String) (plan : Plan) (k : Nat) (s : Store)
+    (p : Pkg) (d : String) (hp : s.pkg = some p)
+    (hd : env.head p.spec.source = .digest d) (hpo : env.parseOk p.spec.source = true)
+    (hpull : p.spec.pull = .always ∨ p.spec.pull = .unset)
+    (hex : ∃ r0 ∈ s.revs, r0.name = friendlyID p.name d) :
+    ∀ s' ∈ reach sem plan k (pkgReconcile env pname) s, ∀ r ∈ s'.revs, ∃ r0 ∈ s.revs, r0.name = r.name := by
+  intro s' hs' r hr
+  have hcur := (revision_name_function env env p p d rfl hd hd hpo hpo hpull hpull).1
+  rcases only_current_revision_is_ever_created env pname plan k s p _ hp hcur s' hs' r hr with e | h
+  · obtain ⟨r0, h0, e0⟩ := hex
+    exact ⟨r0, h0, e0.trans e.symm⟩
+  · exact h
+
+set_option maxRecDepth 200000 in
+/-- The Lean `friendlyID` reproduces `xpkg.FriendlyID` of the current tree on the probe table
+regenerated from the source on every run. -/
+theorem friendlyID_matches_source_table :
+    Xp.Gen.friendlyProbes.all (fun t => friendlyID t.1 t.2.1 == t.2.2) = true := by decide
+
+/-! ### history garbage collection -/
+
+/-- History GC deletes only the oldest non-current revision: under every fault plan, any
+revision deleted by a reconcile is a revision of the package, is not the current one, and
+has the lowest revision number among the non-current revisions of the package. -/
+theorem gc_only_oldest_noncurrent (env : Env) (pname : String) (plan : Plan) (k : Nat) (s : Store) (n : String)
+    (h : Req.deleteRev n ∈ applied sem plan k (pkgReconcile env pname) s) :
+    ∃ p cur v, s.pkg = some p ∧ revisionName env p = .ok cur ∧
+      v ∈ s.revs ∧ v.parent = some pname ∧ v.name = n ∧ n ≠ cur ∧
+      ∀ x ∈ s.revs, x.parent = some pname → x.name ≠ cur → v.number ≤ x.number := by
+  obtain ⟨p, cur, v, hp, hr, _, hg, hn⟩ := applied_delete env pname plan k s n h
+  obtain ⟨_, _, _, _, ho⟩ := gcVictim_some hg
+  obtain ⟨h1, h2, h3⟩ := oldestNonCurrent_spec ho
+  have hm := List.mem_filter.mp h1
+  refine ⟨p, cur, v, hp, hr, hm.1, by simpa [labelled] using hm.2, hn, hn ▸ h2, ?_⟩
+  intro x hx hpar hne
+  exact h3 x (List.mem_filter.mpr ⟨hx, by simpa [labelled] using hpar⟩) hne
+
+/-- … only when more than revisionHistoryLimit+1 revisions of the package exist … -/
+theorem gc_only_over_limit (env : Env) (pname : String) (plan : Plan) (k : Nat) (s : Store) (n : String)
+    (h : Req.deleteRev n ∈ applied sem plan k (pkgReconcile env pname) s) :
+    ∃ p lim, s.pkg = some p ∧ p.spec.limit = some lim ∧
+      ((s.revs.filter (labelled pname)).length : Int) > lim + 1 := by
+  obtain ⟨p, cur, v, hp, _, _, hg, _⟩ := applied_delete env pname plan k s n h
+  obtain ⟨lim, hl, _, hlen, _⟩ := gcVictim_some hg
+  exact ⟨p, lim, hp, hl, hlen⟩
+
+/-- … and never when the limit is 0 (nor when it is unset). -/
+theorem gc_never_at_zero (env : Env) (pname : String) (plan : Plan) (k : Nat) (s : Store) (p : Pkg)
+    (hp : s.pkg = some p) (h0 : p.spec.limit = some 0 ∨ p.spec.limit = none) :
+    ∀ n, Req.deleteRev n ∉ applied sem plan k (pkgReconcile env pname) s := by
+  intro n h
+  obtain ⟨p', _, _, hp', _, _, hg, _⟩ := applied_delete env pname plan k s n h
+  obtain ⟨lim, hl, hne, _, _⟩ := gcVictim_some hg
+  rw [hp] at hp'
+  cases hp'
+  rcases h0 with h0 | h0
+  · rw [h0] at hl; cases hl; exact hne rfl
+  · rw [h0] at hl; cases hl
+
+/-- A reconcile never deletes the current revision. -/
+theorem gc_spares_current (env : Env) (pname : String) (plan : Plan) (k : Nat) (s : Store)
+    (p : Pkg) (cur : String) (hp : s.pkg = some p) (hcur : revisionName env p = .ok cur) :
+    Req.deleteRev cur ∉ applied sem plan k (pkgReconcile env pname) s := by
+  intro h
+  obtain ⟨p', cur', v, hp', hr', _, _, _, hne, _⟩ := gc_only_oldest_noncurrent env pname plan k s cur h
+  rw [hp] at hp'
+  cases hp'
+  rw [hcur] at hr'
+  cases hr'
+  exact hne rfl
+
+/-! ### defect D5: the collector of the unfixed tree -/
+
+def d5Rev (name : String) (n : Int) (st : State) : Rev :=
+  { name := name, parent := some "p", number := n, state := st, ctrl := some "u-p", image := "img", labels := [],
+    fin := false, deleting := false }
+
+/-- a package rolled back to the image of its lowest-numbered revision, limit 1, three revisions -/
+def d5Store : Store :=
+  { pkg := some { name := "p", uid := "u-p",
+                  spec := { source := "xpkg.io/org/pkg:v1", limit := some 1, policy := .unset, pull := .unset, paused := false, labels := [] },
+                  status := { curRev := "p-3333333333cc", curId := "xpkg.io/org/pkg:v3", pausedCond := false } }
+    revs := [d5Rev "p-1111111111aa" 1 .inactive, d5Rev "p-2222222222bb" 2 .inactive, d5Rev "p-3333333333cc" 3 .active] }
+
+def d5Env : Env := { head := fun _ => .digest "1111111111aa0000", parseOk := fun _ => true }
+
+/-- On the unfixed tree `gc_only_oldest_noncurrent` is FALSE: the collector picks the
+lowest-numbered revision even when it is the current one.  Witness (corpus/C14/d5.jsonl):
+after a rollback to the oldest of three revisions with limit 1, the reconcile of the unfixed
+code deletes the current revision `p-1111111111aa`, which is then gone from the store. -/
+theorem gc_only_oldest_noncurrent_fails_on_unfixed_witness :
+    (match revisionName d5Env (d5Store.pkg.getD default) with | .ok c => c == "p-1111111111aa" | .error _ => false) = true ∧
+    (applied sem Plan.allOk 0 (pkgReconcileUnfixed d5Env "p") d5Store).any
+        (fun r => match r with | .deleteRev n => n == "p-1111111111aa" | _ => false) = true ∧
+    (findRev "p-1111111111aa" (run sem Plan.allOk 0 (pkgReconcileUnfixed d5Env "p") d5Store).1.revs).isNone = true := by
+  decide
+
+/-- the repaired collector, on the same witness, deletes the oldest NON-current revision and
+the current one ends up Active with the highest number -/
+theorem d5_witness_repaired :
+    (applied sem Plan.allOk 0 (pkgReconcile d5Env "p") d5Store).filterMap
+        (fun r => match r with | .deleteRev n => some n | _ => none) = ["p-2222222222bb"] ∧
+    ((run sem Plan.allOk 0 (pkgReconcile d5Env "p") d5Store).1.revs.map fun r => (r.name, r.number, r.state))
+      = [("p-1111111111aa", 4, .active), ("p-3333333333cc", 3, .inactive)] := by
+  decide
+
+/-! ### the hypotheses are satisfiable by non-trivial states -/
+
+example : WF d5Store ∧ (activeRevs "p" d5Store).length ≤ 1 := by decide
+
+/-- a crash right after the second deactivation-related call still shows at most one Active -/
+example : ∀ s' ∈ reach sem (Plan.at 4 .crashAfter) 0 (pkgReconcile d5Env "p") d5Store,
+    (activeRevs "p" s').length ≤ 1 :=
+  fun s' h => (le_one_active_every_prefix d5Env "p" _ 0 d5Store (by decide) (by decide) s' h).2
+
+example : (run sem Plan.allOk 0 (pkgReconcile d5Env "p") d5Store).2 = some (.done "p-1111111111aa" false) := by
+  decide
 
 end Xp.C14
